@@ -5,7 +5,15 @@
 
 mod alloc;
 mod c01;
+mod c02;
+mod gen;
+mod handlers;
+mod loopback;
 mod c03;
+mod c04;
+mod c08;
+mod c05;
+mod peer;
 mod c06;
 mod c07;
 mod fdrive;
@@ -85,8 +93,29 @@ fn scn_c06_4g() -> Scenario {
     }
 }
 
+fn scn_c02_f() -> Scenario {
+    Scenario {
+        name: "F-loopback-calls",
+        engine: "F",
+        run: c02::run,
+        quick: 60_000,
+        thorough: 1_500_000,
+        grid: 0,
+        what: "generated client -> loopback (re-chunking, delaying bodies, wire tap) -> generated server with scripted handlers; 1..3 calls over the 4 shapes, 3 services (raw codec, prost with package, prost without package), consistent compression configs",
+    }
+}
+
 fn props() -> Vec<Property> {
     vec![
+    Property {
+        id: "C02",
+        title: "Client observes exactly the messages, metadata and status the server produced",
+        scenarios: vec![scn_c02_f()],
+        rule: "one run = 1..3 calls (shape, request messages+metadata, handler script: k messages then OK or Status(code,msg,details,metadata), possibly refused at call time) x compression config x codec buffer settings x readiness of sources and both bodies x re-chunking of both bodies; non-trivial = an error script, an injected Pending or a re-cut frame; distinct = distinct hash of all structural tape decisions",
+        real_vs_stub: RVS_F.to_vec(),
+        assumptions: vec!["fault-free configuration: the loopback never kills a body (connection kills are an engine-N configuration)"],
+        required_probes: vec!["error-before-first-message-in-stream", "error-after-messages", "trailers-only-response", "status-after-data-on-wire"],
+    },
     Property {
         id: "C01",
         title: "Message streams survive encode/decode unchanged under any chunking",
@@ -104,6 +133,50 @@ fn props() -> Vec<Property> {
         real_vs_stub: RVS_F.to_vec(),
         assumptions: vec!["'nothing after the trailers block' is judged the way hyper's HTTP/2 sender consumes a body (stops after trailers / error / None / end-stream flag)"],
         required_probes: vec!["encoder-emitted-several-data-frames"],
+    },
+    Property {
+        id: "C04",
+        title: "Status survives the header encoding; reading any headers is total",
+        scenarios: vec![
+            Scenario { name: "F-hostile-status", engine: "F", run: c04::run_headers, quick: 60_000, thorough: 1_500_000, grid: 0, what: "scripted server peer answers a generated client with arbitrary grpc-status / grpc-message / grpc-status-details-bin (valid, out of range, garbage, invalid percent-encoding, invalid UTF-8, invalid base64) in trailers or trailers-only headers, any chunking" },
+            Scenario { name: "F-http-status", engine: "F", run: c04::run_http_status, quick: 4_000, thorough: 100_000, grid: 500, what: "HTTP status 100..=599 (enumerated completely first) with no grpc-status, with/without body and trailers" },
+            Scenario { name: "F-reset", engine: "F", run: c04::run_reset, quick: 4_000, thorough: 100_000, grid: 16, what: "stream reset surfaced as an h2::Error body error, reasons 0..=15 enumerated first, before/after/inside messages" },
+            scn_c02_f(),
+        ],
+        rule: "one run = one call answered by a scripted peer with one header combination / HTTP status / reset reason x chunking x readiness (plus the C02 loopback runs sampling the status round trip); non-trivial = every hostile run; distinct = distinct hash of structural tape decisions",
+        real_vs_stub: RVS_F.to_vec(),
+        assumptions: vec![
+            "the for-all-statuses round-trip clause is a pure function of the status; it is sampled by the loopback workload, not decided",
+            "in engine F a reset is injected as a body error of type h2::Error (hyper would wrap it in hyper::Error; that path is engine N)",
+            "HTTP/2 error codes the gRPC table leaves unmapped (STREAM_CLOSED, HTTP_1_1_REQUIRED, unknown) are not judged",
+        ],
+        required_probes: vec!["invalid-base64-details", "invalid-utf8-message"],
+    },
+    Property {
+        id: "C08",
+        title: "User metadata crosses the wire intact; protocol headers cannot be forged",
+        scenarios: vec![
+            scn_c02_f(),
+            Scenario { name: "F-foreign-to-server", engine: "F", run: c08::run_to_server, quick: 40_000, thorough: 800_000, grid: 0, what: "foreign client peer sends padded/unpadded base64 -bin values and repeated keys; the handler reads them through the typed accessors" },
+            Scenario { name: "F-foreign-to-client", engine: "F", run: c08::run_to_client, quick: 40_000, thorough: 800_000, grid: 0, what: "foreign server peer sends metadata in response headers, trailers and error statuses (padded/unpadded); the caller reads them through the typed accessors" },
+        ],
+        rule: "one run = metadata maps (ASCII/binary, repeated keys, reserved-name canaries, byte strings of every length mod 3) on requests, responses, trailers and error statuses crossing tonic<->tonic or tonic<->foreign peer; non-trivial = at least one metadata entry or error status; distinct = distinct hash of structural tape decisions",
+        real_vs_stub: RVS_F.to_vec(),
+        assumptions: vec!["the accessor clause (typed accessors never confuse ASCII and binary) is a pure function of a map: it is sampled on every received map, not decided"],
+        required_probes: vec!["padded-base64-from-peer"],
+    },
+    Property {
+        id: "C05",
+        title: "Compression is used only as negotiated and configured",
+        scenarios: vec![
+            Scenario { name: "F-negotiation-grid", engine: "F", run: c05::run_grid, quick: 6_000, thorough: 200_000, grid: c05::GRID, what: "tonic client <-> tonic server over the loopback: all 2048 (server accept, server send, client send, client accept) configurations enumerated first (enable order drawn), then random cells; unary and server-streaming; per-response opt-out" },
+            Scenario { name: "F-hostile-request", engine: "F", run: c05::run_hostile_request, quick: 30_000, thorough: 600_000, grid: 0, what: "foreign client peer -> tonic server: arbitrary grpc-accept-encoding lists (spacing, unknown tokens, duplicates, case, non-ASCII), arbitrary grpc-encoding values, flag 0/1 frames" },
+            Scenario { name: "F-hostile-response", engine: "F", run: c05::run_hostile_response, quick: 20_000, thorough: 400_000, grid: 0, what: "foreign server peer -> tonic client: arbitrary grpc-encoding on the response, flag 0/1 frames" },
+        ],
+        rule: "one run = one call under one (server accept/send, client send/accept) configuration or one hostile header combination x chunking x readiness; every run is non-trivial; distinct = distinct hash of structural tape decisions; the first 2048 grid runs enumerate the configuration space completely",
+        real_vs_stub: RVS_F.to_vec(),
+        assumptions: vec!["whether a server must compress when it could is not prescribed by the property (probe only)", "offered encodings = comma-separated, trimmed, case-sensitive tokens of grpc-accept-encoding"],
+        required_probes: vec!["request-encoding-refused", "response-compressed", "compressed-flag-without-encoding", "response-encoding-refused"],
     },
     Property {
         id: "C06",
